@@ -9,6 +9,7 @@ Decision procedure shared by all properties (DESIGN.md §2):
 Exit codes: 0 held, 1 violation, 2 infrastructure failure (timeout, crash of the harness).
 """
 import argparse, hashlib, importlib, json, os, random, shutil, signal, sys, tempfile, time, traceback
+import subprocess
 
 HERE = os.path.dirname(os.path.dirname(os.path.abspath(__file__)))
 sys.path.insert(0, HERE)
@@ -195,6 +196,20 @@ def lean_phase(ctx, mod):
             n_bad += 1
             ctx.obligation_broken(name, "depends on axioms outside the trusted base: %s" % ax)
     ctx.theorems = axioms
+    if ctx.tier == "thorough":
+        # independent re-check of the compiled .olean files of the property's own modules by leanchecker
+        own = [m for m in closure if m.startswith("PyaModel.")]
+        t0 = time.time()
+        try:
+            r = subprocess.run(["lake", "env", "leanchecker"] + own, cwd=os.path.join(HERE, "lean"),
+                               capture_output=True, text=True, timeout=1500)
+            ctx.extra["leanchecker"] = {"modules": len(own), "exit": r.returncode, "seconds": round(time.time() - t0, 1)}
+            if r.returncode != 0:
+                n_bad += 1
+                ctx.obligation_broken("leanchecker", "leanchecker rejected the compiled modules: " + (r.stdout + r.stderr)[-800:])
+        except subprocess.TimeoutExpired:
+            ctx.extra["leanchecker"] = {"modules": len(own), "exit": "timeout"}
+            ctx.notes.append("leanchecker timed out (not counted as a broken obligation)")
     ctx.discharged = ctx.obligations - n_bad - (1 if bad else 0)
     return True
 
